@@ -153,3 +153,4 @@ def den_ident():
 
 def minterm_check(patterns, constants):
     return check_minterms(ALPHABET, patterns, constants)
+
